@@ -85,6 +85,11 @@ def handle (j : Json) : Except String Json := do
         ("parse", .arr (cls.map (fun i => jOptNat' (h.parseRow (h.discr i)))).toArray),
         ("selects", .arr (cls.map (fun e => Json.arr (cls.map (fun r => Json.bool (h.selects e (h.discr r)))).toArray)).toArray),
         ("isSub", .arr (cls.map (fun a => Json.arr (cls.map (fun b => Json.bool (h.isSub a b))).toArray)).toArray)])
+  | "rowclass" =>
+      -- for every entity e and class r: the class `_fetch_objects` gives an object built from a row written by r and fetched for e
+      let hasDiscr ← intList (← j.getObjVal? "hasDiscr")
+      pure (Json.mkObj [("rows", .arr (cls.map (fun e => Json.arr (cls.map (fun r =>
+        jOptNat' (PonyVerif.Model.SeedLoad.rowClass h e (hasDiscr.getD e 0 != 0) (h.discr r)))).toArray)).toArray)])
   | "refine" =>
       let c ← argNat j "cls"
       let e ← argNat j "entity"
